@@ -155,10 +155,10 @@ KpGoodD(f, dev) ==
 KpAllCls(f) ==
     CASE f = "kind"    -> {"443", "444", "445", "1"}
       [] f = "pv"      -> {"ok", "missing", "novalue", "wrong", "dupok", "dupbad"}
-      [] f = "cs"      -> {"ok", "missing", "novalue", "wrong", "short", "nothex", "noprefix", "dupok", "dupbad"}
-      [] f = "ext"     -> {"ok", "upper", "extra", "reordered", "missing", "novalue", "nof2ee", "no000a", "malformed", "dupok", "dupbad"}
+      [] f = "cs"      -> {"ok", "missing", "novalue", "wrong", "short", "nothex", "noprefix", "utf8", "dupok", "dupbad"}
+      [] f = "ext"     -> {"ok", "upper", "extra", "reordered", "missing", "novalue", "nof2ee", "no000a", "malformed", "utf8", "dupok", "dupbad"}
       [] f = "relays"  -> {"one", "two", "three", "missing", "empty", "badurl", "dupok", "dupbad"}
-      [] f = "i"       -> {"ok", "upper", "missing", "novalue", "empty", "nothex", "mismatch", "short", "twovalues", "dupok", "dupbad"}
+      [] f = "i"       -> {"ok", "upper", "missing", "novalue", "empty", "nothex", "mismatch", "short", "twovalues", "utf8", "dupok", "dupbad"}
       [] f = "enc"     -> {"ok", "upper", "missing", "novalue", "hex", "dupok", "dupbad"}
       [] f = "content" -> {"ok", "empty", "notb64", "garbage", "truncated", "trailing"}
       [] f = "author"  -> {"self", "other"}
